@@ -245,6 +245,10 @@ func Compare(b *Behaviour, nodes []tensor.Tensor) (detail string, known bool) {
 				return fmt.Sprintf("tensor %d element %d is %v, specification %v", i+1, k, v, want.Data[k].Eval(nil, 1).V), false
 			}
 		}
+		// the same elements through every other route (Reshape, Slice(nil), the whole-tensor reductions, Equals)
+		if d := bind.CrossRead(t, dims, flat); d != "" {
+			return fmt.Sprintf("tensor %d: %s", i+1, d), false
+		}
 		ctx := bind.Context(t)
 		if ctx.Tracked != want.Tracked {
 			return fmt.Sprintf("tensor %d tracked=%v, specification %v", i+1, ctx.Tracked, want.Tracked), false
@@ -333,6 +337,10 @@ func Replay(b *Behaviour) (detail string, known bool) {
 		}
 	}
 	// tracking never changes forward values: the same program without any tracking gives identical values
+	// (C08's statement: only that property's check makes this run)
+	if bind.Scope != "C08" {
+		return "", known
+	}
 	plain, err := Exec(b, true)
 	if err != nil {
 		return "untracked re-run: " + err.Error(), false
